@@ -2,6 +2,8 @@
      kind 1  calls of the handlers that authorize before anything else
      kind 3  calls of Write and ActionSearch (they resolve the store's model first)
      kind 2  ListStores (all pages; name filters) and CreateStore
+     kind 4  ListStores again after stores were deleted (their grant tuples stay in the control
+             store) and new stores were created; the store list is the live list
    with the grant table the driver obtained from the control store itself.
    DIFF  = the implementation's outcome differs from Sec/Authz.v (authorize / write_authorize /
            list_stores / authorize_create_store with the regenerated relation table);
@@ -128,7 +130,9 @@ let calls_record claims_state client stores grants la calls =
 
 let sorted_ids (l : n list list) : string list = List.sort compare (List.map coq_to_bytes l)
 
-let lists_record claims_state client stores grants la lists create =
+let subset a b = List.for_all (fun x -> List.mem x b) a
+
+let lists_record claims_state client stores grants la lists create backend =
   let (cl, all, g, la) = decode_common claims_state client stores grants la in
   let v = { prop = []; diff = []; known_f9 = []; known_model = [] } in
   let get_m = match method_of_bytes (bytes_to_coq "GetStore") with Some m -> m | None -> raise (Missing "GetStore") in
@@ -141,7 +145,9 @@ let lists_record claims_state client stores grants la lists create =
       let obs = List.map s_of (as_list ids) in
       let seen = String.concat "," (List.map s_of (as_list seen)) in
       let where = Printf.sprintf "ListStores(name=%S)" (s_of name) in
-      let model = list_stores g la cl (cb name) all in
+      let model =
+        if s_of backend = "sqlite" then list_stores_sqlite g la cl (cb name) all
+        else list_stores g la cl (cb name) all in
       let show = function None -> "forbidden" | Some l -> "[" ^ String.concat " " l ^ "]" in
       let m = match model with LSDenied -> None | LSStores l -> Some (sorted_ids l) in
       let o = if cls = 1 then None else if cls = 0 then Some obs else Some ["<error>"] in
@@ -150,8 +156,17 @@ let lists_record claims_state client stores grants la lists create =
       let not_gettable = match o with
         | None -> []
         | Some l -> List.filter (fun s -> s <> "<error>" && not (spec_allowed g cl get_m (bytes_to_coq s) [])) l in
+      (* the authorizer's accessible id list (may name stores that no longer exist) *)
+      let acc = match accessible_stores g la cl with Some l -> Some (List.map coq_to_bytes l) | None -> None in
+      let outside_acc = match o, acc with
+        | Some l, Some (_ :: _ as a) -> List.filter (fun s -> s <> "<error>" && not (List.mem s a)) l
+        | _, _ -> [] in
       if cls = 0 && not may_list then
         v.prop <- (where ^ ": answered without the can_call_list_stores grant") :: v.prop
+      else if outside_acc <> [] then
+        v.prop <- (Printf.sprintf "ListStores returned a store the caller cannot get: %s returned %s; not in the caller's accessible set [%s]: [%s] (backend saw IDs: %s)"
+                     where (show o) (String.concat " " (match acc with Some a -> a | None -> []))
+                     (String.concat " " outside_acc) seen) :: v.prop
       else if not_gettable <> [] then begin
         let txt = Printf.sprintf "%s returned %s; the caller may not get [%s] (backend saw IDs: %s)" where (show o)
             (String.concat " " not_gettable) seen in
@@ -165,7 +180,7 @@ let lists_record claims_state client stores grants la lists create =
   let cm = is_allow (authorize_create_store g cl) in
   let cs = spec_system_allowed g cl create_m in
   let cpassed = ccls <> 1 in
-  if cm <> cpassed then begin
+  if ccls >= 0 && cm <> cpassed then begin
     let txt = Printf.sprintf "CreateStore: model %s, implementation class %d" (if cm then "allows" else "denies") ccls in
     if cs <> cpassed then v.prop <- txt :: v.prop else v.diff <- txt :: v.diff
   end;
@@ -177,8 +192,8 @@ let f _id vs =
     match vs with
     | [I k; claims_state; client; stores; grants; la; calls] when k = "1" || k = "3" ->
       calls_record claims_state client stores grants la calls
-    | [I "2"; claims_state; client; stores; grants; la; lists; create] ->
-      lists_record claims_state client stores grants la lists create
+    | [I k; claims_state; client; stores; grants; la; lists; create; backend] when k = "2" || k = "4" ->
+      lists_record claims_state client stores grants la lists create backend
     | _ -> "DIFF malformed-record"
   with Missing what -> "DIFF " ^ what
 
